@@ -1,3 +1,331 @@
-//! C52 — stub, to be implemented.
-use vcore::Ctx;
-pub fn run(_ctx: &mut Ctx) {}
+//! C52 — connection limits are never exceeded (ignoring connections to bypassed peers).
+//!
+//! `libp2p_connection_limits::Behaviour` is composed with a `Probe` through `#[derive(NetworkBehaviour)]`
+//! (both field orders) and driven by the shared world interpreter (`life.rs`). After every Swarm poll
+//! return and every API call the number of pending incoming / pending outgoing / established incoming /
+//! established outgoing / per-peer / total established connections — taken both from the fold of the
+//! returned events and from `Swarm::network_info()` — restricted to connections whose peer was never on
+//! the bypass list during the connection's life must not exceed the configured limit.
+use crate::life::{self, Case, Ext, NodeModel, Weights};
+use libp2p_connection_limits as limits;
+use libp2p_identity::PeerId;
+use libp2p_swarm::NetworkBehaviour;
+use proptest::prelude::*;
+use serde::{Deserialize, Serialize};
+use serde_json::{json, Value};
+use simswarm::probe::{Entry, ErrKind, Probe, ProbeScript, SharedLog};
+use simswarm::world::{Ev, Probes, World};
+use std::collections::{BTreeMap, BTreeSet};
+use vcore::{gen, Ctx, Outcome};
+
+#[derive(NetworkBehaviour)]
+#[behaviour(prelude = "libp2p_swarm::derive_prelude")]
+pub struct LimitsProbe {
+    limits: limits::Behaviour,
+    probe: Probe,
+}
+
+#[derive(NetworkBehaviour)]
+#[behaviour(prelude = "libp2p_swarm::derive_prelude")]
+pub struct ProbeLimits {
+    probe: Probe,
+    limits: limits::Behaviour,
+}
+
+pub trait HasLimits {
+    fn limits(&mut self) -> &mut limits::Behaviour;
+}
+
+macro_rules! impls {
+    ($t:ty) => {
+        impl Probes for $t {
+            fn fields(&self) -> usize {
+                1
+            }
+            fn probe(&mut self, _f: usize) -> &mut Probe {
+                &mut self.probe
+            }
+        }
+        impl HasLimits for $t {
+            fn limits(&mut self) -> &mut limits::Behaviour {
+                &mut self.limits
+            }
+        }
+    };
+}
+impls!(LimitsProbe);
+impls!(ProbeLimits);
+
+/// limit kinds, in the order of `Lim`
+const KINDS: [&str; 6] = ["pending-incoming", "pending-outgoing", "established-incoming", "established-outgoing", "established-per-peer", "established-total"];
+type Lim = [Option<u8>; 6];
+
+#[derive(Clone, Debug, Serialize, Deserialize)]
+pub struct LCase {
+    /// per node: pending in, pending out, established in, established out, per peer, total
+    pub limits: Vec<Lim>,
+    /// per node: bit k set = gen::peer(k) is on the bypass list from the start
+    pub bypass: Vec<u8>,
+    pub probe_first: bool,
+    pub base: Case,
+}
+
+fn build_limits(l: &Lim) -> limits::ConnectionLimits {
+    let o = |x: Option<u8>| x.map(|v| v as u32);
+    limits::ConnectionLimits::default()
+        .with_max_pending_incoming(o(l[0]))
+        .with_max_pending_outgoing(o(l[1]))
+        .with_max_established_incoming(o(l[2]))
+        .with_max_established_outgoing(o(l[3]))
+        .with_max_established_per_peer(o(l[4]))
+        .with_max_established(o(l[5]))
+}
+
+#[derive(Default)]
+struct LimExt {
+    limits: Vec<Lim>,
+    /// per node: peers on the bypass list right now
+    bypassed: Vec<BTreeSet<PeerId>>,
+    /// per node: connection ids whose (expected / authenticated) peer was on the bypass list at some observation
+    /// point of the connection's life; these are ignored when counting
+    ignored: Vec<BTreeSet<u64>>,
+    /// per kind: the restricted count reached the (non-zero) limit at some point
+    at_limit: [bool; 6],
+    bypass_changes: u32,
+    ignored_live_max: usize,
+}
+
+impl LimExt {
+    fn new(c: &LCase, nn: usize) -> Self {
+        LimExt {
+            limits: (0..nn).map(|i| c.limits.get(i).cloned().unwrap_or([None; 6])).collect(),
+            bypassed: (0..nn).map(|i| (0..8).filter(|k| c.bypass.get(i).cloned().unwrap_or(0) >> k & 1 == 1).map(gen::peer).collect()).collect(),
+            ignored: vec![BTreeSet::new(); nn],
+            ..Default::default()
+        }
+    }
+}
+
+impl<B: Probes + HasLimits> Ext<B> for LimExt {
+    fn op(&mut self, w: &mut World<B>, _m: &[NodeModel], node: usize, kind: u8, arg: u8) {
+        let p = gen::peer(arg as usize % 8);
+        let b = w.nodes[node].swarm.behaviour_mut().limits();
+        if kind % 2 == 0 {
+            b.bypass_peer_id(&p);
+            self.bypassed[node].insert(p);
+        } else {
+            b.remove_peer_id(&p);
+            self.bypassed[node].remove(&p);
+        }
+        self.bypass_changes += 1;
+    }
+
+    fn observe(&mut self, w: &mut World<B>, m: &[NodeModel], i: usize, when: &str) -> Option<(String, Value)> {
+        let mm = &m[i];
+        let byp = &self.bypassed[i];
+        // connections to currently bypassed peers are ignored from now on
+        for (id, info) in &mm.ids {
+            if info.handed_out && info.outbound && info.terminal.is_empty() {
+                if let Some(p) = info.expected {
+                    if byp.contains(&p) {
+                        self.ignored[i].insert(*id);
+                    }
+                }
+            }
+        }
+        for (p, set) in &mm.est {
+            if byp.contains(p) {
+                self.ignored[i].extend(set.iter().cloned());
+            }
+        }
+        let ign = &self.ignored[i];
+        // (a) fold of the returned events and API calls
+        let pend_in = mm.ids.values().filter(|x| x.handed_out && !x.outbound && x.terminal.is_empty()).count() as u32;
+        let pend_out_all = mm.ids.values().filter(|x| x.handed_out && x.outbound && x.terminal.is_empty()).count() as u32;
+        let pend_out_ign = mm.ids.iter().filter(|(id, x)| x.handed_out && x.outbound && x.terminal.is_empty() && ign.contains(id)).count() as u32;
+        let est_in_all = mm.est_dir.values().filter(|o| !**o).count() as u32;
+        let est_out_all = mm.est_dir.values().filter(|o| **o).count() as u32;
+        let est_in_ign = mm.est_dir.iter().filter(|(id, o)| !**o && ign.contains(id)).count() as u32;
+        let est_out_ign = mm.est_dir.iter().filter(|(id, o)| **o && ign.contains(id)).count() as u32;
+        let per_peer: BTreeMap<PeerId, u32> = mm.est.iter().map(|(p, s)| (*p, s.iter().filter(|c| !ign.contains(c)).count() as u32)).collect();
+        let max_per_peer = per_peer.values().cloned().max().unwrap_or(0);
+        self.ignored_live_max = self.ignored_live_max.max((pend_out_ign + est_in_ign + est_out_ign) as usize);
+        let hist = [pend_in, pend_out_all - pend_out_ign, est_in_all - est_in_ign, est_out_all - est_out_ign, max_per_peer, est_in_all - est_in_ign + est_out_all - est_out_ign];
+        // (b) the Swarm's own counters minus the ignored connections
+        let info = w.nodes[i].swarm.network_info();
+        let c = info.connection_counters();
+        let ctr = [
+            c.num_pending_incoming(),
+            c.num_pending_outgoing().saturating_sub(pend_out_ign),
+            c.num_established_incoming().saturating_sub(est_in_ign),
+            c.num_established_outgoing().saturating_sub(est_out_ign),
+            0, // no per-peer counter is exposed
+            c.num_established().saturating_sub(est_in_ign + est_out_ign),
+        ];
+        let lim = &self.limits[i];
+        for k in 0..6 {
+            let Some(l) = lim[k] else { continue };
+            let l = l as u32;
+            if hist[k] > l {
+                let mut d = json!({"node": i, "when": when, "kind": KINDS[k], "limit": l, "held (event history, bypassed ignored)": hist[k], "bypassed_now": byp.iter().map(|p| p.to_string()).collect::<Vec<_>>(), "ignored_connections": ign});
+                if k == 4 {
+                    d["per_peer"] = json!(per_peer.iter().map(|(p, n)| (p.to_string(), *n)).collect::<BTreeMap<_, _>>());
+                }
+                return Some((format!("C52:{}-limit-exceeded", KINDS[k]), d));
+            }
+            if ctr[k] > l {
+                return Some((format!("C52:{}-limit-exceeded-by-counters", KINDS[k]), json!({"node": i, "when": when, "kind": KINDS[k], "limit": l, "network_info minus ignored": ctr[k]})));
+            }
+            if l > 0 && hist[k] == l {
+                self.at_limit[k] = true;
+            }
+        }
+        None
+    }
+}
+
+fn script_for(case: &Case, node: usize) -> ProbeScript {
+    ProbeScript {
+        deny: case.denies.iter().filter(|(n, f, _, _)| *n as usize == node && *f == 0).map(|(_, _, d, k)| (*d, *k)).collect(),
+        dial_addrs: vec![],
+        protocols: vec!["/probe/1".into()],
+        keep_alive: true,
+        stream_timeout_ms: 0,
+    }
+}
+
+fn check(c: &LCase) -> Outcome {
+    let mut base = c.base.clone();
+    base.fields = 1;
+    let nn = base.nodes.clamp(1, 3) as usize;
+    let mut ext = LimExt::new(c, nn);
+    let mk_limits = |i: usize, ext: &LimExt| {
+        let mut b = limits::Behaviour::new(build_limits(&ext.limits[i]));
+        for p in &ext.bypassed[i] {
+            b.bypass_peer_id(p);
+        }
+        b
+    };
+    let r = if c.probe_first {
+        let behaviours: Vec<limits::Behaviour> = (0..nn).map(|i| mk_limits(i, &ext)).collect();
+        let mut it = behaviours.into_iter();
+        life::run_with(&base, |i, log: SharedLog| ProbeLimits { probe: Probe::new(i as u8, 0, log, script_for(&base, i)), limits: it.next().expect("one per node") }, &mut ext)
+    } else {
+        let behaviours: Vec<limits::Behaviour> = (0..nn).map(|i| mk_limits(i, &ext)).collect();
+        let mut it = behaviours.into_iter();
+        life::run_with(&base, |i, log: SharedLog| LimitsProbe { limits: it.next().expect("one per node"), probe: Probe::new(i as u8, 0, log, script_for(&base, i)) }, &mut ext)
+    };
+    if let Some((sig, detail)) = r.fails.iter().find(|(s, _)| s.starts_with("C52:")) {
+        return Outcome::fail(sig.clone(), detail.clone());
+    }
+    // the counting above rests on the event-history model of the world interpreter: a failure of one of its
+    // own oracles (C01/C02/... signatures) is reported as it is
+    if let Some((sig, detail)) = r.fails.first() {
+        return Outcome::fail(sig.clone(), detail.clone());
+    }
+    if !r.settled {
+        return Outcome::Inconclusive("world did not settle within the round bound".into());
+    }
+    // denials that are not the probe's are the limit behaviour's
+    let mut labels: Vec<&'static str> = vec![];
+    let mut limit_denials = 0u32;
+    for i in 0..nn {
+        let probe_denied: BTreeSet<u64> = r
+            .log
+            .iter()
+            .filter(|x| x.node == i as u8)
+            .filter_map(|x| match &x.entry {
+                Entry::PendingIn { conn, denied: true } | Entry::PendingOut { conn, denied: true, .. } | Entry::EstIn { conn, denied: true, .. } | Entry::EstOut { conn, denied: true, .. } => Some(*conn),
+                _ => None,
+            })
+            .collect();
+        let incoming_seen: BTreeSet<u64> = r.events[i].iter().filter_map(|e| if let Ev::Incoming { conn, .. } = e { Some(*conn) } else { None }).collect();
+        for e in &r.events[i] {
+            match e {
+                Ev::OutgoingError { conn, err: ErrKind::Denied, .. } if !probe_denied.contains(conn) => {
+                    limit_denials += 1;
+                    labels.push("denied:established-outgoing/per-peer/total");
+                }
+                Ev::IncomingError { conn, err: ErrKind::Denied, .. } if !probe_denied.contains(conn) => {
+                    limit_denials += 1;
+                    labels.push(if incoming_seen.contains(conn) { "denied:established-incoming/per-peer/total" } else { "denied:pending-incoming" });
+                }
+                _ => {}
+            }
+        }
+        for (id, info) in &r.models[i].ids {
+            if info.sync_err == Some(ErrKind::Denied) && !probe_denied.contains(id) {
+                limit_denials += 1;
+                labels.push("denied:pending-outgoing");
+            }
+        }
+        // behaviour-initiated dials that were denied synchronously never get a model entry: count their DialFailure
+        let known: BTreeSet<u64> = r.models[i].ids.keys().cloned().collect();
+        for x in r.log.iter().filter(|x| x.node == i as u8) {
+            if let Entry::Swarm(simswarm::probe::FS::DialFailure { conn, err: ErrKind::Denied, .. }) = &x.entry {
+                if !known.contains(conn) && !probe_denied.contains(conn) {
+                    limit_denials += 1;
+                    labels.push("denied:pending-outgoing");
+                }
+            }
+        }
+    }
+    labels.sort();
+    labels.dedup();
+    for k in 0..6 {
+        if ext.at_limit[k] {
+            labels.push(["at-limit:pending-incoming", "at-limit:pending-outgoing", "at-limit:established-incoming", "at-limit:established-outgoing", "at-limit:per-peer", "at-limit:total"][k]);
+        }
+    }
+    if ext.ignored_live_max > 0 {
+        labels.push("bypassed-connection-live");
+    }
+    if ext.bypass_changes > 0 {
+        labels.push("bypass-list-changed");
+    }
+    if r.flags.established > 0 {
+        labels.push("established");
+    }
+    if r.flags.two_node_links > 0 {
+        labels.push("swarm_to_swarm");
+    }
+    if r.flags.closes > 0 {
+        labels.push("closed");
+    }
+    if c.probe_first {
+        labels.push("order:probe,limits");
+    } else {
+        labels.push("order:limits,probe");
+    }
+    Outcome::pass_l(limit_denials > 0, labels)
+}
+
+fn limit() -> impl Strategy<Value = Option<u8>> {
+    prop_oneof![5 => Just(None), 1 => Just(Some(0u8)), 4 => Just(Some(1u8)), 4 => Just(Some(2u8)), 2 => Just(Some(3u8))]
+}
+
+fn strategy(max_ops: usize) -> BoxedStrategy<LCase> {
+    let w = Weights { dial: 7, connect: 9, resolve_ok: 10, resolve_err: 2, inbound: 6, close: 2, disconnect: 1, remote_close: 1, notify: 0, poll: 6, step: 3, settle: 3 };
+    (
+        proptest::collection::vec(proptest::array::uniform6(limit()), 3),
+        proptest::collection::vec(prop_oneof![3 => Just(0u8), 2 => any::<u8>().prop_map(|b| b & 0b0011_0110), 1 => any::<u8>()], 3),
+        any::<bool>(),
+        life::case_strategy_ext(3, 1..=1, 1, 4..=max_ops, w, 3, 2, 8),
+    )
+        .prop_map(|(limits, bypass, probe_first, base)| LCase { limits, bypass, probe_first, base })
+        .boxed()
+}
+
+pub fn run(ctx: &mut Ctx) {
+    ctx.assume("transport, muxer and remote peers are simulated (simswarm); connection tasks run on the harness executor; idle timeout 1h so no timer fires");
+    ctx.assume("a connection counts as 'to a bypassed peer' if its expected/authenticated peer was on the bypass list at some observation point between the id being handed out and now (list changes during a connection's life make the statement ambiguous; the reading that ignores more is used)");
+    ctx.assume("pending incoming connections have no peer yet and are all counted");
+    let max_ops = ctx.tier.sel(50, 70);
+    ctx.check::<LCase>(
+        "world",
+        "programs of 4..50 world ops (dials with/without peer id, swarm-to-swarm connects, phantom inbound connections, transport outcomes ok/err/wrong peer, closes, disconnects, remote close, muxer fault, bypass_peer_id/remove_peer_id, generated schedules) over 1..3 swarms whose behaviour is #[derive(NetworkBehaviour)] {connection_limits, probe} in both field orders; per node six limits each None or 0..3 and an initial bypass set; after every poll return / API call the six counts (event-history fold and network_info, bypassed connections ignored) are <= the limits; non-trivial = at least one connection was denied by the limits behaviour; distinct by case hash",
+        ctx.n(40_000, 1_200_000),
+        &move || strategy(max_ops),
+        &check,
+    );
+}
